@@ -121,6 +121,32 @@ META.update({
     },
 })
 
+META.update({
+    "C09": {
+        "text": "TrustedIter.tla lowers every library adaptor to the std combinators it is built from with the length it "
+                "declares (ConstructionTruthful over the whole parameter band incl. lags beyond the series, k >= len, empty "
+                "input) and models the consumption of the library's own TrustIter / Linspace under every interleaving of "
+                "next / next_back (HintExact in every reachable state)." + TWOWAY,
+        "note": NOTE + " std's combinators are trusted; iterators reach the trusted collectors only after a safe count.",
+        "design": "DESIGN.md section 6 C09",
+    },
+    "C10": {
+        "text": "ReadsInBounds, WriteOnce, InitAtDone and DegenerateIsClean of Window.tla (every form, body, length, second "
+                "length, window incl. 0 and > len) and the write list of vrank's run-length loop in OrderStats.tla are checked "
+                "by TLC; the binding runs every driver and every kernel on an instrumented, bounds-checked input container "
+                "into an instrumented output buffer on both output paths." + TWOWAY,
+        "note": NOTE + " Kernel-internal scratch indices are covered at design level only (DESIGN 10).",
+        "design": "DESIGN.md section 6 C10",
+    },
+    "C19": {
+        "text": "Generators.tla: RangeExact (progression strictly before the end in the direction of the step, exact count "
+                "law), LinspaceEnds, first-error rule, and the writer machine with WriterRule (every slot exactly once or "
+                "none) and termination." + ENUM,
+        "note": NOTE + " Float ranges driven with exactly representable quarter-integers.",
+        "design": "DESIGN.md section 6 C19",
+    },
+})
+
 DEFAULT_NA = "check not built yet in this round (work in progress; see DESIGN.md section 11)"
 
 
